@@ -18,7 +18,7 @@ TEXT = {
             "F1 (fixed-size types ignore the declared length) is a listed known finding; leniency is probed per type on every run"),
     "C04": ("proof", "5 C04", "Theorem C04_no_panic: no byte string reaches a panic site of the model decoder (every checked subtraction/addition/slice is an explicit panic outcome), recursion on explicit fuel. Partial: stack consumption, allocation and wall-clock time are exercised on a 2 MiB thread under supervision (abort/hang attributed to the exact frame), not proved.",
             "proof (partial): real stack bytes per level, allocator, time are runtime behaviour"),
-    "C05": ("proof", "5 C05", "Theorems C05_fault (success against a writer that dies after k octets implies no internal error and every octet accepted, for every message and every k), C05_range (a Time outside the 32-bit 1900-based range or an AVP/message length of 2^24 or more anywhere in the tree makes the encoder fail; mutual induction), C05_ok_is_complete (a success hands over exactly Spec.encode). Tie: fault enumeration over EVERY k of every corpus frame with short-write / Interrupted / Ok(0) delivery modes, out-of-range Times at every nesting level, lengths at and past 2^24.",
+    "C05": ("proof", "5 C05", "Theorems C05_fault (success against a writer that dies after k octets implies no internal error and every octet accepted, for every message and every k), C05_range (a Time outside the 32-bit 1900-based range or an AVP/message length of 2^24 or more anywhere in the tree makes the encoder fail; mutual induction), C05_ok_is_complete (a success hands over exactly Spec.encode). Tie: fault enumeration over EVERY k of every corpus frame with short-write / Interrupted / Ok(0) delivery modes, out-of-range Times at every nesting level, lengths at and past 2^24. Since round 10: C05_avp_range / C05_avp_too_long for an AVP encoded on its own through Avp::encode_to, tied by `encha`.",
             "std::io::Write::write_all semantics are assumed (and exercised); the writer is modelled by its total budget, which is what the property quantifies over"),
     "C06": ("proof", "5 C06", "Theorems C06_read_exact (read_exact returns the next n octets of the stream for every chunking and Pending placement; induction over the script), C06_read_frame / C06_read_independent (one call returns the frame's message, consumes exactly |f| octets, leaves exactly the rest - for any two scripts delivering the same octets), C06_write (write_all over arbitrary partial acceptance puts exactly the octets on the stream). Partial: tokio's waker registration is exercised (self-waking scripted stream under a current-thread runtime), not proved. Tie: every pair of cut positions for short streams, dribble, exhaustive two-pause placements, random scripts; partial-write patterns; C06_read_refused (a frame the message decoder refuses costs exactly itself: the calls behind it read their own frames) with refused frames inside streams; streams that advertise vectored writes or fill the read buffer TLS-style (iomode).",
             "proof (partial): tokio read_exact/write_all loops are modelled as definitions (readExact, writeAll); the async runtime is not modelled"),
@@ -26,13 +26,13 @@ TEXT = {
             "allocation of the body buffer is runtime behaviour (exercised)"),
     "C08": ("proof", "5 C08", "Theorems C08_all_good (induction over the request list: calls = requests, written = answers, nothing else), C08_handler_fails, C08_malformed (after the first bad position no later request reaches the handler and nothing further is written), from the general serve_prefix lemma. Partial: async runtime as in C06. Tie: verif_serve_stream hook on scripted duplex streams, 1..8 requests, segmentation/Pending/partial-write patterns, one failing handler call or malformed frame (4 kinds) at every position.",
             "proof (partial): tokio scheduling not modelled; the listen()/TCP path is exercised under C10"),
-    "C09": ("proof", "5 C09", "Theorems C09_read_cut (stream ending at ANY offset q inside the next frame: exactly the complete requests were handled, exactly their answers written, loop ended), C09_write_cut (write side failing at any point: calls = reqs.take k, answers to the first k-1 fully written, nothing beyond a prefix of the k-th), C09_write_prefix, C09_no_panic. Partial: promptness (time) is exercised under paused virtual time, not proved. Tie: fault enumeration over EVERY read cut offset (close / dribble+close / reset) and EVERY write failure offset (error and Ok(0)) of each corpus stream.",
+    "C09": ("proof", "5 C09", "Theorems C09_read_cut (stream ending at ANY offset q inside the next frame: exactly the complete requests were handled, exactly their answers written, loop ended), C09_write_cut (write side failing at any point: calls = reqs.take k, answers to the first k-1 fully written, nothing beyond a prefix of the k-th), C09_write_prefix, C09_no_panic. Partial: promptness (time) is exercised under paused virtual time, not proved. Tie: fault enumeration over EVERY read cut offset (close / dribble+close / reset) and EVERY write failure offset (error and Ok(0)) of each corpus stream. Since rounds 8-10: C09_cut_both / C09_refused_both / C09_refused_frame_both (read-side cut or refused frame AND write-side failures in one run), tied by scenarios that combine a read cut with a write failure.",
             "proof (partial): termination in real time and wake-ups are runtime behaviour"),
     "C10": ("proof", "5 C10", "Theorems over the listener's labelled transition system (accept loop, per-connection tasks, handshakes; labels for peers arriving, sending anything, handshakes completing / failing / never completing, tasks consuming items incl. a handler panic): C10_frame (a step of another connection leaves this connection's component untouched), C10_answers_routed (in every reachable state what was written to c is exactly one answer per request c's own peer sent, in order - a function of c's input alone), C10_accept_enabled (the accept loop never waits on a peer; every backlog entry can be accepted), C10_serve_enabled, C10_handshake_enabled, and the negative witness C10_inline_blocks for the code before fix D9. Partial: tokio's scheduler fairness, the kernel backlog and accept() errors are runtime behaviour. Tie: real listen() on port 0 (verif_local_addr) on a multi-threaded runtime over loopback; scenario table fault kind x moment x plain/TLS x 1..4 well-behaved clients x 1..3 faulty peers; each good client's answers (ids and markers) are checked, a late connection must be served; the driver predicts the same from the model.",
             "proof (partial): scheduler fairness and real time are runtime behaviour; the multi-threaded runs are randomised in timing"),
-    "C13": ("proof", "5 C13", "Theorem C13_table: for every cell of the finite table and EVERY port, the outcome produced by the decision glue (use_tls decides whether a session is attempted; verify_cert is passed as !accept_invalid; the domain handed to the TLS library is host_of(address), proved to be the host part for host:port, a.b.c.d:port and [v6]:port) equals the table the property states; C13_no_cleartext, C13_server_tls_never_plain, C13_domain_matters (defect D11 in the model's terms). Partial: the TLS library's semantics is a stated parameter (accept iff accept-invalid or trusted chain naming the domain). Tie: EXHAUSTIVE - every cell (x host name / IPv4 / IPv6 literal) is executed with the library's real client and server over loopback through a recording relay, certificates generated per run, trust injected via SSL_CERT_FILE, a unique marker searched in the capture; listen() is re-entered once before each cell.",
+    "C13": ("proof", "5 C13", "Theorem C13_table: for every cell of the finite table and EVERY port, the outcome produced by the decision glue (use_tls decides whether a session is attempted; verify_cert is passed as !accept_invalid; the domain handed to the TLS library is host_of(address), proved to be the host part for host:port, a.b.c.d:port and [v6]:port) equals the table the property states; C13_no_cleartext, C13_server_tls_never_plain, C13_domain_matters (defect D11 in the model's terms). Partial: the TLS library's semantics is a stated parameter (accept iff accept-invalid or trusted chain naming the domain). Tie: EXHAUSTIVE - every cell (x host name / IPv4 / IPv6 literal) is executed with the library's real client and server over loopback through a recording relay, certificates generated per run, trust injected via SSL_CERT_FILE, a unique marker searched in the capture; listen() is re-entered once before each cell. Since round 9: hostOf_host_port / hostOf_bracketed_port / C13_any_host / C13_any_literal / C13_any_modes (the glue for EVERY host text, bracketed literal, port and certificate; the table is its instance, C13_table_is_instance); the driver computes each cell through that general glue; further cells: the address spelled as a DiameterURI, certificates valid for thirty years or with RSA keys, one client object reconnecting to a server that changed its certificate (tlsre).",
             "proof (partial): native-tls / OpenSSL behaviour is an assumption, tied only by the exhaustive table run"),
-    "C11": ("proof", "5 C11", "Theorems over the client's labelled transition system (labels = the lock-granularity atomic steps of send_message / handle / process_decoded_msg): C11_safety for EVERY run (any interleaving, any peer): a future only ever holds a message the peer emitted whose id is the id of its own request; C11_delivery and C11_once for polite runs (fresh ids, peer answers started requests at most once): every emitted answer ends in the future of its own request, in at most one. Proved by a 7- and a 15-clause inductive invariant. Partial: tokio's scheduler, oneshot channel and mutex are assumed. Tie: trace conformance - the harness drives the real client on scripted streams (verif_attach_stream + trace points), the driver replays every observed event trace through Client.step and rejects a trace that is not a run or whose predicted future values differ; the properties are also evaluated directly on the observed future values. Since round 6: a model of one client object attached to several connections (Dia.Cm; C11_multi_safety, C11_multi_one_deliverer, C11_single_is_slice: the single-connection model is its one-connection slice), tied by clim / ctracem trace conformance; C11_server_to_client and C11_end_to_end compose server loop, codec and client; the octets the client writes are checked against the encodings of the requests it reported as sent.",
+    "C11": ("proof", "5 C11", "Theorems over the client's labelled transition system (labels = the lock-granularity atomic steps of send_message / handle / process_decoded_msg): C11_safety for EVERY run (any interleaving, any peer): a future only ever holds a message the peer emitted whose id is the id of its own request; C11_delivery and C11_once for polite runs (fresh ids, peer answers started requests at most once): every emitted answer ends in the future of its own request, in at most one. Proved by a 7- and a 15-clause inductive invariant. Partial: tokio's scheduler, oneshot channel and mutex are assumed. Tie: trace conformance - the harness drives the real client on scripted streams (verif_attach_stream + trace points), the driver replays every observed event trace through Client.step and rejects a trace that is not a run or whose predicted future values differ; the properties are also evaluated directly on the observed future values. Since round 6: a model of one client object attached to several connections (Dia.Cm; C11_multi_safety, C11_multi_one_deliverer, C11_single_is_slice: the single-connection model is its one-connection slice), tied by clim / ctracem trace conformance; C11_server_to_client and C11_end_to_end compose server loop, codec and client; the octets the client writes are checked against the encodings of the requests it reported as sent. Since round 9: C11_multi_end_to_end (one server loop per connection of a client object).",
             "proof (partial): tokio scheduling, oneshot delivery, Mutex serialisation are assumptions (DESIGN.md section 3); multi-threaded TCP runs are supporting evidence only"),
     "C12": ("proof", "5 C12", "Theorems C12_stopped (once the reader has stopped, for whatever reason, the table is closed and NO future is pending), C12_send_after_stop (a later send is refused under the lock), C12_superseded, C12_pending_means_waiting (pending implies the reader runs and the waiter is still registered or being delivered to) - for every run of the transition system. Partial: that the oneshot actually wakes the awaiting task is runtime behaviour; hangs are detected under paused virtual time. Tie: as C11, with the answer stream cut at EVERY byte offset (close / reset / undecodable continuation), corrupted, unmatched, duplicated answers at every position, superseded waiters, sends after the stop. Since round 6: C12_multi_stopped / C12_multi_delivery_enabled / C12_multi_quiescent / C12_multi_send_after_stop for a client object with several connections sharing one table (once any connection's reader has stopped nothing stays pending except a delivery already under way; a later connect() does not re-open the table), tied by clim scenarios; unsolicited floods, stalled sends, futures polled in one task and awaited in another.",
             "proof (partial): wake-ups and time are runtime behaviour"),
